@@ -837,9 +837,6 @@ def simplify(run):
             r = _copy(run)
             r['ops'][oi]['form'] = 'list'
             yield r
-    # simpler world: snap times to integers offsets
-    if run['swarm']['config'] == 'compiled':
-        pass
 
 
 def _copy(run):
